@@ -4,8 +4,10 @@ From Coq Require Import String Ascii List NArith ZArith QArith Bool Lia.
 From Sylt Require Import Syntax.Resolved.
 From Sylt Require Sem.Values Sem.Runtime Sem.SyltSem.
 From Sylt Require Import Back.IR Back.Emit Back.ScopeProofs.
-From Sylt Require Import Pres.EmitAst Pres.EmitRel Pres.Names Pres.LuaFuel Pres.LuaEv Pres.Preamble Pres.Frag.
-From Sylt Require Import Pres.SimDefs Pres.SimOps Pres.SimVals Pres.SimExpr Pres.LowerShape.
+From Sylt Require Import Pres.EmitAst Pres.EmitRel Pres.Names Pres.LuaFuel Pres.LuaEv Pres.Preamble.
+From Sylt Require Import Pres.Frag.
+From Sylt Require Import Pres.SimDefs Pres.SimOps Pres.SimVals.
+From Sylt Require Import Pres.SimExpr Pres.LowerShape.
 From Sylt Require Import Lua.LuaAst Lua.LuaMap Lua.LuaNum Lua.LuaProofs Lua.LuaCore.
 Import ListNotations.
 Local Open Scope N_scope.
@@ -219,7 +221,7 @@ Lemma step_define_temp sc e st F c c' E stL l t :
   rel sc e st E stL -> ctx_ok l F E c c' -> c <= t < c' -> 1 <= count_of u t ->
   exists E' stL' p,
     okstep sc e st F c c' E stL (fst (agen_one u l (IDefine t))) E' stL' F /\
-    sget (fmt_var t) E' = Some p.
+    sget (fmt_var t) E' = Some p /\ get_cell stL' p = VNil.
 Proof.
   intros Hrel [Hb Hl HF HE] Ht Hu.
   pose proof (r_wf _ _ _ _ _ _ _ Hrel) as Hwf. pose proof (r_linv _ _ _ _ _ _ _ Hrel) as Hli.
@@ -231,7 +233,7 @@ Proof.
                   (EvalList_one _ _ _ _ (EvalMulti_single E ENil stL VNil stL eq_refl (Eval_nil E stL)))) as H.
     rewrite bind_locals_one in H. exact H. }
   exists (sset (fmt_var t) (s_ncell stL) E), (snd (alloc_cell stL VNil)), (s_ncell stL).
-  split; [|apply sget_sset_same].
+  split; [|split; [apply sget_sset_same | apply get_cell_alloc_new]].
   split; [apply ExecS_one; exact Hex|]. split; [apply lframe_w; apply lframe_local; [exact Hwf | exact Hli | apply HE; exact Ht | exact Ht]|].
   split; [apply rel_local_temp; [exact Hrel | lia]|]. split; [apply F_new_refl|].
   intros w Hw. apply sget_sset_var. destruct (r_scb _ _ _ _ _ _ _ Hrel w Hw). lia.
